@@ -23,9 +23,29 @@ RULE = (
     "(__setitem__, ktensor.arrange/normalize/fixsigns/redistribute/update) may change the receiver only, and the "
     "receiver must end up independent of the other arguments.  Non-trivial: the operation returned and at least one "
     "operand (receiver included) holds a non-empty array, so the bit-identity clause has something to protect; the "
-    "share of cases whose result also holds an array (independence clauses active) is the label 'result-has-arrays'."
+    "share of cases whose result also holds an array (independence clauses active) is the label 'result-has-arrays'.  "
+    "Round 2 (applied by the registry to every cell, see _c05_states): (1) every tensor-like operand anywhere in a "
+    "case gets a derived state (dense grown / permuted / reshaped / sliced ...; sparse with explicitly stored zeros / "
+    "numpy-int shape / grown / permuted; Kruskal after normalize(weight_factor=k) ...; Tucker with such a core; tenmat / "
+    "sptenmat obtained by matricising such a tensor) and, for integer-valued data, an integer storage dtype; auxiliary "
+    "vectors / matrices / factors are optionally integer, all ones, all zeros, with a zero row, Fortran-ordered or "
+    "strided views.  (2) state across calls: in most cases the operation is called a second time on the same operands "
+    "(after they were verified bit-identical): the second result must not share memory with the first, must not "
+    "change when the first is overwritten, must leave the operands unchanged again and - for deterministic "
+    "operations - must equal the first; the remaining clauses are applied to the second result.  In some cases a "
+    "second history is run: prime the operation, overwrite the value arrays of its operands in place (reversed "
+    "entries plus one), call again; the result must equal that of the same call on freshly built operands edited "
+    "the same way before any call (clauses second-*, stale-after-in-place-edit, edit-history-outcome-differs)."
 )
 ASSUMPTIONS = [
+    "wall-clock measurements inside a result (any path mentioning 'time') are not values: they are ignored when two "
+    "results are compared for equality (they still take part in the aliasing clauses)",
+    "operations that call ARPACK (nvecs of every class, cp_als, tucker_als) are not bit-reproducible from call to call "
+    "(ARPACK keeps its own start-vector generator): for them the second call is judged for aliasing only and the "
+    "edit history is not run",
+    "arrays of a result that are views of an operand are judged by the clauses aliased:<operand> (where the open "
+    "findings match); the clauses about a pair of results look at the other arrays only",
+    "in-place operations (setitem, normalize, arrange ...) are not called twice and have no edit history",
     "explicit no-copy constructions (copy=False, to_tensor(copy=False), to_tenmat(copy=False), from_function) are outside the claim and not generated",
     "an exception raised by the operation is not a C05 violation (whether a value is returned is C02/C03/C04/C19); it is "
     "labelled 'raised:<Type>' and the case counts as trivial",
